@@ -88,11 +88,13 @@ def cv_worker(job):
         with gen_ref.quiet():
             gen_ref.make_reference(case, seed, 1)
             genome, anno, _ = gen_ref.load_reference(case)
-            recs = gen_ref.make_variants(case, seed + 1, anno, genome,
-                                         per_tx=opts.get('per_tx', (1, 6)),
-                                         max_size=opts.get('max_size', 5),
-                                         snv_frac=opts.get('snv_frac', 0.6),
-                                         exonic_only=True)
+            recs = []
+            for tx_id in anno.transcripts:
+                n = rng.randint(*opts.get('per_tx', (1, 6)))
+                recs += gen_ref.dense_variants(anno, genome, tx_id, rng, n,
+                                               max_size=opts.get('max_size', 4),
+                                               snv_frac=opts.get('snv_frac', 0.55),
+                                               window=opts.get('window', 40))
             gen_ref.write_gvfs(case, recs)
         if not case.gvfs:
             out['stats']['empty'] = 1
